@@ -99,7 +99,9 @@ template<class T, int KIND>
 void register_quant(const std::string& tname, const std::vector<int>& ks, int nmax_small, const std::vector<int>& big_ns) {
   typedef QuantTypes<T, KIND> QT; typedef typename QT::Sk Sk; typedef typename SerdeOf<T>::type SD; typedef typename LessOf<T>::type C;
   Family f; f.name = std::string(QT::nm()) + "<" + tname + ">";
-  f.preamble_bytes = KIND == 0 ? 40 : KIND == 1 ? 40 : 32;   // REQ: the 8-byte preamble plus n/min/max and the first compactor header
+  // the preamble proper: KLL 20 bytes (DATA_START), REQ 8 + n, classic 16. Item data behind it is not preamble: a corrupted float
+  // item can be NaN, for which no order exists, so nothing can be demanded of a sketch that holds it
+  f.preamble_bytes = KIND == 0 ? 20 : 16;
   f.states = [ks, nmax_small, big_ns](bool quick, const StateCb& cb) { quant_states<Sk, T, KIND>(quick, cb, [](int k) { return QT::make(k); }, ks, quick ? std::min(nmax_small, 30) : nmax_small, big_ns); };
   f.from_bytes = [](const void* p, size_t n) { return ObjP(new QObj<Sk, T, KIND>(Sk::deserialize(p, n, SD(), C(), mc::TrackAlloc<T>(1)))); };
   f.from_stream = [](std::istream& is) { return ObjP(new QObj<Sk, T, KIND>(Sk::deserialize(is, SD(), C(), mc::TrackAlloc<T>(1)))); };
